@@ -378,6 +378,62 @@ func concurrentScenario(c int) *explore.Scenario {
 	}}
 }
 
+// One function wrapped once by the middleware and registered under two router handlers (the middleware is an
+// ordinary function wrapper: nothing says it must be installed through AddMiddleware): every poisoned message
+// names the handler, topic and subscriber it failed in.
+func sharedWrapperScenario() *explore.Scenario {
+	return &explore.Scenario{Name: "router/one-wrapped-function-under-two-handlers", C: -1, DataOnly: true, Body: func() {
+		filter := filters[vs.Choose(len(filters), 0, "filter")]
+		poison := hx.NewScriptPub("poison")
+		wrapped := build(filter, poison)(func(m *message.Message) ([]*message.Message, error) { return nil, e1 })
+		r, _ := message.NewRouter(message.RouterConfig{}, nil)
+		subs := map[string]*hx.ScriptSub{}
+		origs := map[string]*message.Message{}
+		order := []string{"h1", "h2"}
+		if vs.Choose(2, 0, "which handler fails first") == 1 {
+			order = []string{"h2", "h1"}
+		}
+		var prevGate chan struct{}
+		for _, h := range order {
+			m := mkMsg("some")
+			m.UUID = "u-" + h
+			origs[h] = m
+			sub := hx.NewScriptSub("src-"+h, map[string][]*message.Message{"in-" + h: {m}})
+			sub.Gate = make(chan struct{})
+			subs[h] = sub
+			r.AddNoPublisherHandler(h, "in-"+h, sub, func(m *message.Message) error { _, err := wrapped(m); return err })
+			_ = prevGate
+		}
+		go func() {
+			if err := r.Run(context.Background()); err != nil {
+				vs.Fail("run-result", "%v", err)
+			}
+		}()
+		<-r.Running()
+		for _, h := range order { // one after the other, in the chosen order
+			subs[h].Open()
+			vs.Quiesce()
+		}
+		calls := poison.Snapshot()
+		if !accepts(filter, e1) {
+			if len(calls) != 0 {
+				vs.Fail("passes-through", "filter %s: %d poison publishes", filter, len(calls))
+			}
+			return
+		}
+		for _, h := range order {
+			var mine []*hx.PubCall
+			for _, c := range calls {
+				if len(c.Msgs) == 1 && c.Msgs[0].UUID == origs[h].UUID {
+					mine = append(mine, c)
+				}
+			}
+			checkPoisonCall(fmt.Sprintf("filter=%s, one wrapped function under handlers %v, message of %s", filter, order, h), mine, origs[h], e1, "in-"+h, h, subs[h].String())
+		}
+		vs.Note("filter=%s order=%v calls=%d", filter, order, len(calls))
+	}}
+}
+
 // valuesFrom: a context whose cancellation comes from one context and whose values from another (what a
 // context-preserving transport hands to the next consumer).
 type valuesFrom struct {
@@ -445,6 +501,7 @@ func chainedScenario() *explore.Scenario {
 
 func init() {
 	reg.AddW("C13", "router/chained-handlers-context-preserving-transport", reg.Quick, 5, func(t reg.Tier) *explore.Scenario { return chainedScenario() })
+	reg.AddW("C13", "router/one-wrapped-function-under-two-handlers", reg.Quick, 5, func(t reg.Tier) *explore.Scenario { return sharedWrapperScenario() })
 	reg.AddW("C13", "standalone/concurrent-messages/c2", reg.Quick, 10, func(t reg.Tier) *explore.Scenario {
 		if t == reg.Thorough {
 			return concurrentScenario(3)
